@@ -67,7 +67,22 @@ func newDialModel(p *core.Prog, r *core.Run, rule string) *dialModel {
 				}
 			}
 		}
-		resolves := len(callSites(p, []*ssa.Function{l}, `\(interface\{Resolve.*\}\)\.Resolve`)) > 0
+		// a call of a method Resolve(ctx, name) (ResolveResult, error), through
+		// whatever interface or concrete type
+		resolves := false
+		for _, s := range allCalls(p, []*ssa.Function{l}) {
+			c := s.Instr.Common()
+			var sig *types.Signature
+			name := ""
+			if c.IsInvoke() {
+				name, sig = c.Method.Name(), c.Method.Type().(*types.Signature)
+			} else if f := c.StaticCallee(); f != nil && f.Signature.Recv() != nil {
+				name, sig = f.Name(), f.Signature
+			}
+			if name == "Resolve" && sig != nil && sig.Params().Len() == 2 && sig.Results().Len() == 2 && strings.HasSuffix(sig.Results().At(0).Type().String(), "ech.ResolveResult") {
+				resolves = true
+			}
+		}
 		switch {
 		case callsOne:
 			m.worker = l
